@@ -88,7 +88,7 @@ type busWriter struct {
 }
 
 func (w *busWriter) Write(p []byte) (n int, err error) {
-	if uint32(len(p)) >= w.o+w.end {
+	if w.o+w.start+uint32(len(p)) > w.end {
 		err = io.ErrUnexpectedEOF
 		return
 	}
